@@ -53,6 +53,7 @@ def run(ctx):
         ctx.saw(b)
 
     _r6_option_condition_is_equality(ctx, C1)
+    _r7_subnet_defaults_whenever_asked(ctx, A1)
     # ---------------- R2: first matching sibling wins (both in apply and in check)
     for body, callee, tag in ((AN, A1.id, "apply"), (CN, C1.id, "check")):
         T = terms(P, body)
@@ -264,6 +265,52 @@ def _assigns_const(body, cfg, tgt, value, loop):
             if s["p"] == (0,) and "rv" in s and s["rv"]["k"] == "use" and s["rv"]["op"].get("k", {}).get("bool") is value:
                 return True
     return False
+
+
+def _r7_subnet_defaults_whenever_asked(ctx, A1):
+    """R7 netmask and broadcast of the matched subnet are defaults for *every* matched subnet: once the policy's `match-subnet` is known
+    to be present, the only thing that decides whether `mutate_option_default(NETMASK | BROADCAST, subnet.netmask() | .broadcast())`
+    runs is whether the client asked for that option. A further condition (on the prefix length, say) takes the default away from
+    the subnets it excludes."""
+    P = ctx.P
+    b = A1
+    T = terms(P, b)
+    cfg = cfg_of(b)
+    n = 0
+    for bb, tm in b.calls():
+        if not (callee_name(tm) or "").endswith("mutate_option_default") or len(tm["args"]) < 3:
+            continue
+        a = [norm(x) for x in T.call_args(bb)]
+        val = a[2]
+        while val[0] in ("ref", "deref"):
+            val = norm(val[1])
+        if not (val[0] == "call" and str(val[1]).rsplit("::", 1)[-1] in ("netmask", "broadcast") and
+                any(y[0] == "field" and y[2] == "match_subnet" for y in subterms(val))):
+            continue
+        n += 1
+        subnet_edges = []
+        for sb, t2 in b.terms():
+            if t2["k"] == "switch":
+                d = norm(T.at_term(t2["discr"], sb))
+                if d[0] == "discr" and norm(d[1])[0] == "field" and norm(d[1])[2] == "match_subnet":
+                    subnet_edges += discr_edges(cfg, sb, 1)
+        extra = []
+        for sb, t2 in b.terms():
+            if t2["k"] != "switch" or not edge_dominated(cfg, subnet_edges, sb):
+                continue
+            es = [(sb, t) for t in cfg.succ[sb]]
+            dom = [e for e in es if cfg.edge_dominates(e, bb)]
+            if not dom or len(dom) == len(es):
+                continue
+            d = norm(T.at_term(t2["discr"], sb))
+            while d[0] == "un" and d[1] == "Not":
+                d = norm(d[2])
+            asked = d[0] == "call" and str(d[1]).endswith("::contains") and ("HashSet" in str(d[1]) or "BTreeSet" in str(d[1]) or "slice" in str(d[1]))
+            if not asked:
+                extra.append(show(d)[:80])
+        ctx.check(bool(subnet_edges) and not extra, "R7", "subnet-default-applies-whenever-asked:%s" % str(val[1]).rsplit("::", 1)[-1], ctx.where(b, tm["sp"]),
+                  "besides `match-subnet` being present and the client asking for the option, the default also depends on: %s" % (extra or "-"))
+    ctx.floor("R7", "subnet-derived defaults", n, 2)
 
 
 def _r6_option_condition_is_equality(ctx, C1):
